@@ -3,6 +3,8 @@ from __future__ import annotations
 
 import ast
 
+from ..flow import expand
+
 from .. import cfg as C
 from ..flow import explicit_keywords
 from ..report import AnalysisError
@@ -229,8 +231,31 @@ def rule_d(ctx):
     hist = set()
     for f, node, a, kind, an, chain in sa.cross_call_reads():
         hist.add(a)
+    # positive evidence for a reset that keeps a buffer: reset() binds the history attribute only under a condition, and in __call__ the column
+    # written into it is indexed by the caller's iteration count while the slice read from it is sized by the inner (restart) counter -- after a
+    # restart at an iteration that is not a multiple of the depth the slice 0:mk covers columns written before the restart
+    it_param = call.params[-1]
+    may = set()
+    for s_ in ast.walk(reset.node):
+        if isinstance(s_, (ast.Assign, ast.AnnAssign)):
+            for t_ in (s_.targets if isinstance(s_, ast.Assign) else [s_.target]):
+                if self_attr(t_):
+                    may.add(self_attr(t_))
+    stale = []
+    for a_ in sorted((hist - set(reset_writes)) & may):
+        w_idx, r_idx = [], []
+        for n_ in ast.walk(call.node):
+            if isinstance(n_, ast.Subscript) and self_attr(n_.value) == a_:
+                e_ = expand(call.node, n_.slice)
+                names = {x.id for x in ast.walk(e_) if isinstance(x, ast.Name)}
+                attrs_ = {self_attr(x) for x in ast.walk(e_) if isinstance(x, ast.Attribute)}
+                (w_idx if isinstance(n_.ctx, ast.Store) else r_idx).append((names, attrs_, n_))
+        if any(it_param in nm and "_inner_iteration" not in at for nm, at, _ in w_idx) and any("_inner_iteration" in at for _, at, _ in r_idx):
+            stale.append(a_)
     ctx.ob(R, call.qname, "every history attribute read across calls is re-initialised by reset()", hist <= set(reset_writes),
-           f"history {sorted(hist)}, reset writes {sorted(reset_writes)}", call.node)
+           f"history {sorted(hist)}, reset writes {sorted(reset_writes)}"
+           + (f"; reset() keeps {stale} on some path, and __call__ writes its columns by `{it_param}` but reads a slice sized by the inner counter: after a restart at an "
+              f"iteration that is not a multiple of the depth, columns of the previous cycle are read" if stale else ""), call.node, evidence=bool(stale))
     # reset guarded by counter == 0
     g = sa.info(call).cfg
     it_param = call.params[-1]
